@@ -111,7 +111,8 @@ def check_events(sched, rec, judge_unserialisable_exception_object=True):
     # service-level (inherited) and method-level listeners see the method events of their method
     if sched['request'] in ('valid', 'invalid_arg', 'wrong_kind') or lenient(sched):
         svc, meth = events_of(rec, 'svc'), events_of(rec, 'meth')
-        has_meth_mgr = sched['request'] != 'invalid_arg'        # only `work` carries a method-level manager
+        # `work` carries a method-level manager; `small` only in the http-json application (shared list)
+        has_meth_mgr = sched['request'] != 'invalid_arg' or sched['proto'] == 'http-json'
         for ev in P.METHOD_EVENTS:
             a = app.count(ev)
             hit = ev == raise_event
